@@ -20,6 +20,7 @@ mod ops_cli;
 // (signature: fn(op: &str, args: &[String]) -> Option<String>; None = not mine)
 mod ops_anchors;
 mod ops_arena;
+mod ops_rt;
 mod ops_det;
 mod ops_blocks;
 mod ops_c04;
@@ -35,6 +36,7 @@ pub const COMPONENTS: &[fn(&str, &[String]) -> Option<String>] = &[
     ops_c04::dispatch,
     ops_c06::dispatch,
     ops_cli::dispatch,
+    ops_rt::dispatch,
     ops_cm::dispatch,
     ops_scan::dispatch,
 ];
